@@ -87,6 +87,12 @@ class SyncDaliHatDriver(DaliHatSerialDriver, SyncDALIDriver):
             last_resp = None
             send_twice = command.sendtwice
             cmd = self.construct(command)
+            # Anything still waiting to be read is left over from an
+            # earlier exchange (for example an answer that arrived
+            # after we stopped waiting for it) and must not be taken
+            # for the answer to this command
+            self.buffer.clear()
+            self.conn.reset_input_buffer()
             self.LOG.debug("command string sent: %r", cmd)
             self.conn.write(cmd)
             REPS = 5
@@ -153,4 +159,6 @@ class SyncDaliHatDriver(DaliHatSerialDriver, SyncDALIDriver):
                     resent_times += 1
             if command.is_query:
                 return command.response(resp)
-            return resp
+            # A command that expects no answer returns none, whatever
+            # was read while it was being confirmed
+            return None
